@@ -11,6 +11,11 @@
 (* the rotated file to the current one (WellFormed).  Nothing here knows   *)
 (* about bytes, buffers or probes: `len` is carried along only so that the *)
 (* layouts TLC enumerates can be turned into real files by the harness.    *)
+(* The same holds for a third field, `lay`, the SERIALISATION of the       *)
+(* record (Layouts below): the statement speaks of "a stored entry" and    *)
+(* its timestamp, not of where in the JSON object the "T" property stands  *)
+(* or how the time is spelled, so no operator reads it -- every entry can  *)
+(* be sought, whatever its layout.                                         *)
 (*                                                                         *)
 (* The reader is a cursor `cur` into the concatenation All of the files:   *)
 (* cur = c means "lines All[c], All[c-1], ..., All[1] are still to be      *)
@@ -27,7 +32,7 @@
 EXTENDS Integers, Sequences, FiniteSets, TLC
 
 VARIABLES
-    files,  \* <<f1>> or <<f1, f2>>, oldest first; fi \in Seq([ts : Nat, len : ...])
+    files,  \* <<f1>> or <<f1, f2>>, oldest first; fi \in Seq([ts : Nat, len : .., lay : ..])
     level,  \* "file" | "reader"
     cur,    \* -1 (never positioned) or 0..N: number of lines still to be returned
     out     \* reply of the last call: [op, arg, res, line]
@@ -47,6 +52,27 @@ Offset(fs, i) == IF i <= 1 THEN 0 ELSE Len(fs[i - 1]) + Offset(fs, i - 1)
 
 \* The file (1-based) holding global line g, 1 <= g <= Len(Flat(fs)).
 FileOf(fs, g) == CHOOSE i \in 1..Len(fs) : Offset(fs, i) < g /\ g <= Offset(fs, i) + Len(fs[i])
+
+(***************************************************************************)
+(* Record layouts (a dimension of the universe, see QLogFileProps).        *)
+(*   order  which properties precede "T": none ("T": the current writer),  *)
+(*          the client address ("IP": the format of older files and of the *)
+(*          package's tests), other properties of 130 / 260 / 1100 bytes   *)
+(*          and the address ("long130" ..), everything ("last")            *)
+(*   addr   the client address: IPv4, short IPv6, full 39-character IPv6,  *)
+(*          link-local IPv6 with a zone                                    *)
+(*   tsf    the time: UTC "Z" (fraction as short as it gets), a numeric    *)
+(*          zone offset, nine fraction digits and a numeric zone offset    *)
+(* so that the value of "T" begins anywhere from byte 6 to beyond byte     *)
+(* 1100 (or, with "last", at the far end of a 16 KiB line).  "any" leaves  *)
+(* the layout of a line to the seeded concretisation.                      *)
+(***************************************************************************)
+Orders == {"T", "IP", "long130", "long260", "long1100", "last"}
+Addrs  == {"v4", "v6s", "v6f", "v6z"}
+TsForms == {"utc", "off", "nsoff"}
+Layouts == [order : Orders, addr : Addrs, tsf : TsForms]
+AnyLayout == [order |-> "any", addr |-> "any", tsf |-> "any"]
+DefaultLayout == [order |-> "T", addr |-> "v4", tsf |-> "utc"]
 
 WellFormedLines(a) == \A i \in 1..Len(a) - 1 : a[i].ts < a[i + 1].ts
 WellFormed == Len(files) \in {1, 2} /\ WellFormedLines(All) /\ (level = "file" => Len(files) = 1)
